@@ -14,17 +14,20 @@ CONSTANTS Depth,      \* number of steps
           Dense,      \* BOOLEAN: full boundary grid or the sparse one
           Configs,    \* set of <<Fs, channels, application>>
           BasePre     \* subset of {0, 1}: base state = fresh / after one coded frame
-VARIABLES S, G, D, lastRet, n, hist
+VARIABLES S, G, D, lastRet, n, hist, act
 
-vars == <<S, G, D, lastRet, n, hist>>
+vars == <<S, G, D, lastRet, n, hist, act>>
 
 INTMAX == 2147483647
 
 \* configuration sets selectable from a cfg file (Configs <- Cfg...)
 CfgAll   == FsSet \X {1, 2} \X Apps
+CfgTen   == {<<48000, 2, 2048>>, <<48000, 1, 2049>>, <<24000, 2, 2051>>, <<24000, 1, 2048>>, <<16000, 2, 2049>>,
+             <<16000, 1, 2051>>, <<12000, 2, 2048>>, <<12000, 1, 2049>>, <<8000, 2, 2051>>, <<8000, 1, 2048>>}
+CfgTwo   == {<<48000, 2, 2048>>, <<8000, 1, 2051>>}
 CfgFew   == {<<48000, 2, 2048>>, <<8000, 1, 2051>>, <<12000, 2, 2049>>}
 CfgSome  == {<<48000, 2, 2048>>, <<8000, 1, 2051>>, <<12000, 2, 2049>>, <<16000, 1, 2048>>, <<24000, 2, 2051>>}
-CfgGen2  == {<<48000, 2, 2048>>, <<16000, 1, 2049>>, <<12000, 2, 2051>>, <<8000, 2, 2048>>}
+CfgGen2  == {<<48000, 2, 2048>>, <<12000, 2, 2051>>}
 BaseBoth == {0, 1}
 
 \* [lo, hi] of the documented interval of a setter
@@ -77,30 +80,30 @@ FrameArgs(Fs) == {Fs \div 400, Fs \div 100, Fs \div 50, (3 * Fs) \div 50, (6 * F
 
 -----------------------------------------------------------------------------
 Lbl(x) == IF GenMode THEN Append(hist, x) ELSE hist
-Tick == n < Depth /\ n' = n + 1
+Tick(a) == n < Depth /\ n' = n + 1 /\ act' = a      \* act: the kind of the last step (keeps the actions' successors apart)
 
 DoSet ==
-  /\ Tick
+  /\ Tick("set")
   /\ \E req \in EncSetReqs : \E v \in Grid(S.channels, req) :
        \E o \in (IF GenMode THEN {CHOOSE p \in EncSet(S, G, req, v) : TRUE} ELSE EncSet(S, G, req, v)) :
           /\ S' = o.S /\ G' = o.G /\ lastRet' = o.ret /\ hist' = Lbl(<<"S", req, v>>) /\ UNCHANGED D
 DoGetNull ==
-  /\ Tick
+  /\ Tick("getnull")
   /\ \E req \in EncGetReqs \cup {GET_PITCH} :
        LET o == EncGetNull(S, G, req) IN
        S' = o.S /\ G' = o.G /\ lastRet' = o.ret /\ hist' = Lbl(<<"Q", req>>) /\ UNCHANGED D
 DoUnknown ==
-  /\ Tick
+  /\ Tick("unk")
   /\ \E req \in EncUnknownReqs :
        LET o == EncUnknown(S, G, req) IN
        S' = o.S /\ G' = o.G /\ lastRet' = o.ret /\ hist' = Lbl(<<"U", req>>) /\ UNCHANGED D
 DoReset ==
-  /\ Tick
+  /\ Tick("reset")
   /\ LET o == EncReset(S, G) IN
      S' = o.S /\ G' = o.G /\ lastRet' = o.ret /\ hist' = Lbl(<<"R">>) /\ UNCHANGED D
 \* the envelope: any outcome that honours the settings; a refused frame size is BAD_ARG
 DoEncode ==
-  /\ Tick
+  /\ Tick("enc")
   /\ \E fsArg \in FrameArgs(S.Fs) :
        LET nS == FrameSizeSelect(fsArg, S.frameDuration, S.Fs) IN
        /\ hist' = Lbl(<<"E", fsArg>>) /\ UNCHANGED <<S, D>>
@@ -112,21 +115,23 @@ DoEncode ==
                   THEN \* one canonical outcome per label, so that histories are not duplicated
                        G' = CHOOSE g \in EncGhostAfterEncode(S, G, 1,
                                    CHOOSE p \in OutlineTable[S.Fs][nS] : p.audio /\ EncodeHonours(S, G, nS, p), {-1}) : TRUE
-                  ELSE \E p \in Honoured(nS) : G' \in EncGhostAfterEncode(S, G, 1, p, {-1})
+                  ELSE \* the ghost depends on the packet only through <<codes audio, frame size>>
+                       \E k \in {<<p.audio, p.fsz>> : p \in Honoured(nS)} :
+                          G' \in EncGhostAfterEncode(S, G, 1, [audio |-> k[1], fsz |-> k[2]], {-1})
 
 \* the decoder object runs beside the encoder (same step counter)
 DoDecSet ==
-  /\ Tick /\ ~GenMode
+  /\ Tick("dset") /\ ~GenMode
   /\ \E req \in DecSetReqs \cup {SET_BITRATE} : \E v \in Grid(D.channels, req) :
        LET o == DecSet(D, TRUE, req, v) IN
        D' = o.S /\ lastRet' = o.ret /\ hist' = hist /\ UNCHANGED <<S, G>>
 DoDecGetNull ==
-  /\ Tick /\ ~GenMode
+  /\ Tick("dget") /\ ~GenMode
   /\ \E req \in DecGetReqs \cup {GET_BITRATE} :
        LET o == DecGetNull(D, TRUE, req) IN
        D' = o.S /\ lastRet' = o.ret /\ hist' = hist /\ UNCHANGED <<S, G>>
 DoDecReset ==
-  /\ Tick /\ ~GenMode
+  /\ Tick("dreset") /\ ~GenMode
   /\ D' = DecReset(D).S /\ lastRet' = OK /\ hist' = hist /\ UNCHANGED <<S, G>>
 
 Init ==
@@ -138,7 +143,7 @@ Init ==
           ELSE \* base state "one 20 ms frame has been coded"
                /\ G = [InitG EXCEPT !.first = FALSE, !.pfs = c[1] \div 50, !.started = TRUE]
                /\ hist = << <<"N", c[1], c[2], c[3]>>, <<"E", c[1] \div 50>> >>
-  /\ lastRet = OK /\ n = 0
+  /\ lastRet = OK /\ n = 0 /\ act = "init"
 
 Next == DoSet \/ DoGetNull \/ DoUnknown \/ DoReset \/ DoEncode \/ DoDecSet \/ DoDecGetNull \/ DoDecReset
 Spec == Init /\ [][Next]_vars
